@@ -5,6 +5,7 @@ package main
 
 import (
 	"bytes"
+	"compress/gzip"
 	"compress/zlib"
 	"fmt"
 	"strings"
@@ -614,5 +615,144 @@ func (g *gen) runZstdWindows() {
 			}
 		}
 		g.drop(s)
+	}
+}
+
+// refGzipNamed: a gzip member whose header carries the optional fields (FEXTRA, FNAME, FCOMMENT), as
+// gzip(1) and pre-compressed files have.
+func refGzipNamed(p []byte) []byte {
+	var b bytes.Buffer
+	w := gzip.NewWriter(&b)
+	w.Header.Name = "payload-file.txt"
+	w.Header.Comment = "a comment, then the data"
+	w.Header.Extra = []byte{1, 2, 3, 4, 5, 6}
+	w.Write(p)
+	w.Close()
+	return b.Bytes()
+}
+
+// Q. what went before on the CONNECTION: a first exchange (plain GET, the transport asks for gzip) answered
+// WITHOUT a body (204, 304, 200 with Content-Length: 0, HEAD) or with one, then - same client, same
+// kept-alive / h2 / QUIC connection - every request kind under the same or changed settings, answered with a
+// coded body.  Only the second exchange is judged: it must be treated as if nothing went before.
+func (g *gen) runAfterBodiless() {
+	r, rng := g.r, g.rng.Fork()
+	const bin = "application/octet-stream"
+	p := payload{"text900", textish(rng, 900)}
+	type first struct {
+		name, method string
+		status       int
+		body         bool
+	}
+	firsts := []first{{"204", "GET", 204, false}, {"304", "GET", 304, false}, {"200-cl0", "GET", 0, false}, {"head", "HEAD", 0, true}, {"200-body", "GET", 0, true}}
+	pairs := [][2]cfg{{{}, {}}, {{}, {Disable: true}}, {{Auto: true}, {Auto: true}}, {{}, {Auto: true}}}
+	kinds := []reqKind{reqKinds[1], reqKinds[4], reqKinds[5], reqKinds[0]}
+	if !r.Quick() {
+		kinds = reqKinds[:6]
+	}
+	n := 0
+	for _, st := range stacks {
+		key := st + "/after-bodiless"
+		for _, f := range firsts {
+			var fs *script
+			if f.body {
+				fs = g.newScript(p, codings[0], true, bin)
+			} else {
+				fs = g.newScript(payload{"none", nil}, codings[4], true, bin)
+				fs.Status = f.status
+			}
+			for _, pr := range pairs {
+				for ki, k := range kinds {
+					cods := []coding{codings[0]}
+					if pr[1].Auto && ki%2 == 0 {
+						cods = append(cods, codings[1])
+					}
+					for _, c := range cods {
+						g.w.prime(key, pr[0], f.method, fs)
+						s := g.newScript(p, c, n%2 == 0, bin)
+						x := exchange{Stack: st, Cfg: pr[1], Req: k, S: s, Pat: readPats[n%len(readPats)], Live: true, LiveKey: key}
+						g.w.liveClient(key, pr[1])
+						x.Opened, x.Nth = g.w.live[key].opened, g.w.live[key].n
+						g.w.live[key].n++
+						x.After = f.name
+						g.one(x)
+						r.Count("after.first=" + f.name)
+						g.drop(s)
+						n++
+					}
+				}
+			}
+			g.drop(fs)
+		}
+	}
+}
+
+// R. an interim (informational) response before the final one: 103 Early Hints, then the coded answer - the
+// decision is made from the FINAL response's headers, on every stack.
+func (g *gen) runInterim() {
+	r, rng := g.r, g.rng.Fork()
+	const bin = "application/octet-stream"
+	p := payload{"text900", textish(rng, 900)}
+	n := 0
+	for _, c := range []coding{codings[0], codings[1], codings[2], codings[3], codings[4], codings[10]} {
+		s := g.newScript(p, c, n%2 == 0, bin)
+		s.Interim = 103
+		for _, st := range stacks {
+			for _, cf := range cfgs {
+				for _, k := range []reqKind{reqKinds[0], reqKinds[1]} {
+					g.one(exchange{Stack: st, Cfg: cf, Req: k, S: s, Pat: readPats[n%len(readPats)]})
+					r.Count("interim.stack=" + st)
+					n++
+				}
+			}
+		}
+		g.drop(s)
+	}
+}
+
+// S. gzip members with optional header fields (FEXTRA / FNAME / FCOMMENT), cut at every offset of the
+// header and a few beyond, in the only member and in the second member of a two-member body; the message
+// ends cleanly at the cut (no contradicting Content-Length): a read error is due, on every stack and from
+// both gzip readers (transport.go gzipReader, compress.GzipReader).
+func (g *gen) runGzipHeaders() {
+	r, rng := g.r, g.rng.Fork()
+	const bin = "application/octet-stream"
+	p1, p2 := textish(rng, 400), textish(rng, 700)
+	named := refGzipNamed(p2)
+	hdr := 10 + 2 + 6 + len("payload-file.txt") + 1 + len("a comment, then the data") + 1
+	n := 0
+	for _, two := range []bool{false, true} {
+		prefix, pay := []byte(nil), p2
+		if two {
+			prefix, pay = refCompress("gzip", p1), append(append([]byte{}, p1...), p2...)
+		}
+		full := append(append([]byte{}, prefix...), named...)
+		base := &script{Payload: pay, PayName: "named-gzip", CE: []string{"gzip"}, CEClass: "gzip-named", Served: full, CT: bin}
+		// the intact stream first
+		whole := g.corruptScript(base, "", full)
+		for _, st := range stacks {
+			g.one(exchange{Stack: st, Cfg: cfg{}, Req: reqKinds[0], S: whole, Pat: readPats[n%len(readPats)]})
+			g.one(exchange{Stack: st, Cfg: cfg{Auto: true}, Req: reqKinds[1], S: whole, Pat: readPats[n%len(readPats)]})
+			n++
+		}
+		g.drop(whole)
+		step := 1
+		if r.Quick() {
+			step = 3
+		}
+		for t := 1; t < hdr+8; t += step {
+			cut := len(prefix) + t
+			s := g.corruptScript(base, fmt.Sprintf("trunc-gzip-header@%d/%d", t, hdr), append([]byte{}, full[:cut]...))
+			s.SetCL = n%2 == 0
+			st := stacks[n%3]
+			cf, k := cfg{}, reqKinds[0]
+			if (n/3)%2 == 1 {
+				cf, k = cfg{Auto: true}, reqKinds[1] // AutoDecompression alone decodes: compress.GzipReader also on h1
+			}
+			g.one(exchange{Stack: st, Cfg: cf, Req: k, S: s, Pat: readPats[n%len(readPats)]})
+			r.Count("gzip-header.cut")
+			g.drop(s)
+			n++
+		}
 	}
 }
